@@ -1468,7 +1468,7 @@ impl FastWorld {
     }
 }
 
-fn main() {
+pub fn main() {
     if let Ok(sig) = std::env::var("C04_MINIMIZE") {
         minimize(&sig);
         return;
